@@ -24,6 +24,7 @@ func init() {
 		}
 		wireHostile(c, n)
 		wireStall(c)
+		runSilentPeerDoesNotDelayOthers(c)
 		protoHostile(c)
 		subShortBodies(c)
 		runLimitConfig(c)
